@@ -72,7 +72,8 @@ HARNESS_BIN = "c09"
 NCASES = {"quick": 6000, "thorough": 150000}
 CASE_TIMEOUT = {"quick": 20, "thorough": 60}
 
-LEVEL_TEXT = ("Machine-checked Coq theorems (90 pinned, all closed under the global context), for every word size w > 0, every operand "
+LEVEL_TEXT = ("Machine-checked Coq theorems (110 pinned, all closed under the global context), for every word size w > 0 (w >= 8 where "
+              "C01's word-level add/sub theorems are cited), every operand "
               "length, sign, bit position and shift count: (1) the sign-case tables of & | ^ ! >> regenerated from the Rust source on "
               "every run equal Coq's infinite two's-complement operations on Z; (2) word-level as-is models (little-endian word lists, "
               "inline double word / heap buffer dispatch, Repr::from_buffer normalisation) of bitand_large / bitor_large / bitxor_large "
@@ -105,7 +106,22 @@ LEVEL_TEXT = ("Machine-checked Coq theorems (90 pinned, all closed under the glo
               "Every case of the correspondence run is evaluated by the extracted word-level models at word sizes 16, 32 and 64 (value) "
               "and, for the cases that report a layout, at the word size of the build under test - the default 64-bit build AND the "
               "force_bits=\"32\" build - comparing inline/heap, length and capacity bounds of the real Repr (model fidelity "
-              "asis=same|diff, must be 100 %).")
+              "asis=same|diff, must be 100 %). "
+              "Round 4: (9) the LOOP kernels themselves are regenerated from shift.rs / bits.rs / math.rs on every run by a loop-to-fold "
+              "translator (coq/gen/BitsKernelsGen.v: shl_in_place, shr_in_place_with_carry incl. the reversed iteration, shr_word, ones_word, "
+              "the zip loops of bitand_large / bitor_large / bitxor_large / and_not_large with truncate / push_slice, the while scans of "
+              "trailing_zeros_large / trailing_ones_large / trailing_zeros_large_shifted_by_one with fuel, the count_ones fold, "
+              "are_slice_low_bits_nonzero) and each generated function is PROVED equal to the hand-written kernel for all inputs, so all "
+              "earlier theorems are theorems about the translated code and an edit of a loop body breaks an obligation; (10) the tie to "
+              "C17's storage machine now also covers >> (all forms), clear_bit, | and ^ (double word into a buffer, kept buffer + pushed "
+              "tail, every ownership arm) and & (lowest double word, truncate): whatever Repr the capacity-checked machine returns is "
+              "word for word the kernel's; (11) the IBig tables are closed at word level by citing C01: sub_one / add_one "
+              "(add::sub_one_in_place / add_one_in_place, add_dword), Not for IBig, Repr::neg and the IBig subtraction inside Shr for "
+              "IBig are the word-level models of C01, and the complete & | ^ ! >> on (sign, words) equal Z.land / Z.lor / Z.lxor / "
+              "Z.lnot / Z.shiftr with a normalised result; (12) shift counts and positions beyond the operand (2^32 + k, 2^48 + k, "
+              "2^63 + k, usize::MAX - k) have constant specifications (theorems), the word-level models never form 2^n, and the run "
+              "generates such counts for every >> form, bit, clear_bit, clear_high_bits, split_bits and << of zero. Every case with heap "
+              "operands is also run through the regenerated kernels and the word-level IBig tables.")
 LEVEL_NOTE = ("Trusted: Coq kernel, translator dictionaries (tools/translate.py: bitand->Z.land ...; tools/translate_c09_r3.py: "
               "Repr::from_dword / lowest_dword / *_large(_dword) / len comparisons rendered as the kernels of Int/BitsKernels.v), "
               "extraction incl. FastZ.v directives, zarith, harness. Proved about hand-written models of the kernels, tied to the code "
@@ -114,18 +130,26 @@ LEVEL_NOTE = ("Trusted: Coq kernel, translator dictionaries (tools/translate.py:
               "primitive table / form-macro arms / buffer requests. Machine-integer primitives (& | ^ ! << >> "
               "on Word/DoubleWord, leading_zeros, count_ones, trailing_zeros, is_power_of_two, checked_next_power_of_two) are modelled "
               "by the Z function of the same meaning. Value level only (other properties' subject): <Big>::from(primitive) and TryFrom "
-              "(C06), sub_one / add_one / Not / negation inside the IBig tables (C01), the exact capacity field of heap results "
-              "(C17; the run checks len <= cap <= len + len/4 + 4).")
-TECHNIQUE = ("Coq proofs over source-regenerated sign tables, dispatch arms, primitive-instance table and buffer requests, and over "
-             "hand-transcribed word-level as-is models; canonical-representation theorem; refinement to C17's storage machine; "
-             "extracted-model correspondence run against a 64-bit and a 32-bit build")
+              "(C06), the exact capacity field of heap results (C17; the run checks len <= cap <= len + len/4 + 4). Round 4: the loop "
+              "kernels are no longer only hand-transcribed (regenerated + proved equal); sub_one / add_one / Not / negation inside the "
+              "IBig tables are C01's word-level models (cited theorems, w >= 8). Still hand-transcribed only: the straight-line "
+              "dispatch code around the loops in shift_ops.rs (shl_dword / shr_dword / shl_large / shr_large(_ref) bodies: their buffer "
+              "requests are regenerated, their arithmetic is tied by the run), set_bit / clear_bit / clear_high_bits / split_bits / "
+              "next_power_of_two_large / Repr::ones bodies, shr_in_place_one_word (unsafe pointer copy, an atom of the translator). "
+              "A 16-bit build cannot be made (force_bits=\"16\" fails const evaluation in integer/src/mul/ntt.rs): w = 16 is tied by "
+              "the theorems (C09_w16_instances) and by the value comparison at w = 16 only.")
+TECHNIQUE = ("Coq proofs over source-regenerated sign tables, dispatch arms, primitive-instance table, buffer requests and LOOP KERNELS "
+             "(loop-to-fold translation, generated = hand-written model proved for all inputs), and over hand-transcribed word-level as-is "
+             "models; canonical-representation theorem; refinement to C17's storage machine (<<, >>, set/clear_bit, & | ^); IBig tables "
+             "closed at word level by citing C01's theorems; extracted-model correspondence run against a 64-bit and a 32-bit build")
 RULE = ("cases = operation x operands drawn from word-count classes {0,1,2,3,4,5,8,T-1,T,T+1 for the size thresholds} of 64-bit words and "
         "{1..7} of 32-bit words x bit patterns {all-ones, 2^k, 2^k+-1, low words zero, top word 1/MAX, sparse, 0/MAX words, random} x "
         "both signs x all four by-value/by-reference operand combinations x both Assign forms; primitive operands of every type "
         "u8..u128/usize/i8..i128/isize in all ten forms (big OP prim, &big OP prim, big OP &prim, &big OP &prim, prim OP big, prim OP &big, "
         "&prim OP big, &prim OP &big, OP= prim, OP= &prim); shifts by value / reference / &usize count / Assign; "
         "bit positions / shift counts from {0, 1, multiples of 32 and 64 +-1, bit length +-1, up to length+130, the word index equal to "
-        "the buffer capacity}. Half of the big-valued cases also report the Repr layout. Every case runs against the default and the "
+        "the buffer capacity} and, for every >> form, bit, clear_bit, clear_high_bits, split_bits and << of zero, the usize counts "
+        "2^32 + k, 2^33 + k, 2^48 + k, 2^63 + k, usize::MAX - k (k in 0..130) on inline and heap operands. Half of the big-valued cases also report the Repr layout. Every case runs against the default and the "
         "force_bits=32 build. A case is non-trivial when the oracle evaluated the Coq specification on it and at least one operand is "
         "non-zero; distinct = distinct case texts.")
 EXPLANATION = ("Theorems (coq/props/C09.v): the sign-case tables regenerated from bits.rs/shift_ops.rs equal Z.land/Z.lor/Z.lxor/"
@@ -136,7 +160,10 @@ EXPLANATION = ("Theorems (coq/props/C09.v): the sign-case tables regenerated fro
                "are re-translated from the source on every run (coq/gen/SignTables.v, coq/gen/BitsFormsGen.v) and the theorems are "
                "proved over the generated definitions; the specifications are characterised on Z.testbit. Tie to the code: every case "
                "is also run through the extracted word-level models (hand-written and regenerated dispatch) at three word sizes and "
-               "compared with the answers of a 64-bit and a 32-bit build, including the layout of the result.")
+               "compared with the answers of a 64-bit and a 32-bit build, including the layout of the result. Round 4: the loop kernels "
+               "are regenerated from the source (coq/gen/BitsKernelsGen.v) and proved equal to the hand-written ones; C17's storage machine "
+               "is refined for >> / clear_bit / & | ^ as well; the IBig tables run on (sign, words) throughout using C01's word-level "
+               "add_one / sub_one / neg / sub (cited theorems); counts beyond 2^32 are generated and judged by constant specifications.")
 TRUSTED_BASE = [
     "Coq 8.16.1 kernel (coqc; vm_compute only in the non-vacuity Examples of the word-level theorems)",
     "tools/translate.py renders the macro bodies impl_ibig_bit*/Not/Shr faithfully; dictionary: bitand->Z.land, bitor->Z.lor, bitxor->Z.lxor, and_not->Z.ldiff, sub_one->Z.pred, add_one->Z.succ, >> on magnitudes -> Z.shiftr, are_low_bits_nonzero -> (m mod 2^n <> 0); the entries for bitand/bitor/bitxor/and_not/>>/are_low_bits_nonzero are justified by theorems about the word-level models (C09_repr_bitand ... C09_are_low_bits_nonzero), sub_one/add_one belong to C01",
@@ -145,11 +172,14 @@ TRUSTED_BASE = [
     "extraction: ExtrOcamlBasic + ExtrOcamlZBigInt + the Extract Constant directives of coq/extract/FastZ.v (Z.land/lor/lxor/ldiff/lnot/testbit/log2/... -> zarith)",
     "OCaml 4.13.1 + zarith 1.12, oracle/common.ml, oracle/driver_c09.ml; Rust harness harness/src/bin/c09.rs; verif_hooks::repr_layout_ubig/ibig and WORD_BITS report the layout of a result",
     "the oracle runs the word-level models at w = 16, 32, 64 for the value of every answer and at the word size of the build (64 and 32) for the layout; a 16-bit build is not run (no such CONFIGS entry), w = 16 is covered by the theorems (universally quantified w) and by the value comparison",
-    "C17's storage machine coq/theories/Int/StorageModel.v (definitions only) is used as the statement of the capacity discipline in C09_shl_machine_is_kernel / C09_set_bit_machine_is_kernel / C09_bit_kernel_requests_suffice",
+    "C17's storage machine coq/theories/Int/StorageModel.v (definitions only) is used as the statement of the capacity discipline in C09_shl/shr/set_bit/clear_bit/orx/and_machine_is_kernel / C09_bit_kernel_requests_suffice",
+    "tools/translate_c09_r4.py + the loop-to-fold translator tools/translate_c01_r4.py render the loop kernels of shift.rs / bits.rs / math.rs faithfully: for over iter_mut().zip(iter()) and over iter_mut().rev() as structural recursion, `while c { if d { break; } s }` as a fuelled loop on `c && !d`, `x OP= e` as `x = x OP e`, Buffer truncate / push_slice as firstn / ++, ensure_capacity dropped (C17), the idioms iter().map(f).sum() and iter().any(p) as explicit loops, Word/usize casts as Z.to_nat / Z.of_nat; atoms: split_dword, double_word, Word::trailing_zeros / trailing_ones / count_ones, `!` on a Word, Repr::from_buffer; anything else is reported unparsed (last good copy kept)",
+    "C01's word-level models Int/RingAdd.v (add_one_in_place, sub_one_in_place) and Int/RingOps.v (add_dword, repr_add, ibig_sub_asis, neg) are used as the models of sub_one / add_one / Repr::neg / IBig subtraction inside the C09 tables; their fidelity to add.rs / add_ops.rs is C01's obligation (C01_gen_add_one_word_dword regenerates add_one_in_place / sub_one_in_place)",
+    "for shift counts / positions above 2^24 the driver uses the constant specifications justified by C09_shr_beyond_len / C09_bitops_beyond_len / C09_testbit_beyond_len_neg instead of evaluating Z.shiftr / 2^n, and skips the value-level table (which forms m mod 2^n); the word-level models run unchanged",
 ]
 ASSUMPTIONS = [
     "UBig::from_words / as_words / IBig::from_parts / as_sign_words transport values faithfully (used by the harness instead of any parser)",
-    "usize shift counts and bit indices stay below 2^32 in generated cases (memory)",
+    "left shifts and set_bit are generated with counts below 2^20 only (a larger non-zero result cannot be allocated); >> / bit / clear_bit / clear_high_bits / split_bits are generated over the whole usize range",
     "usize / isize are 64 bits wide on the machine that runs the harness (also for the force_bits=32 build); the theorems hold for any width",
 ]
 
